@@ -60,7 +60,7 @@ func dbgHook(point string, args ...interface{}) {
 }
 
 var dbgPrograms = map[string][2]string{ // state class -> (source, breakpoint line)
-	"running":  {"x := 1\nfor verif.spin() {\n    y := 1\n}\n", ""},
+	"running":  {"x := 1\nfor verif.spin() {\n    mutex m1 {\n        y := 1\n    }\n    mutex m2 {\n        y := 2\n    }\n}\n", ""},
 	"suspTop":  {"x := 1\ny := 2\nz := 3\nw := 4\n", "2"},
 	"suspCall": {"x := 1\nfunc g(p) {\n    v := p\n    return v + 1\n}\nfunc f(q) {\n    return g(q) + 1\n}\nres := f(1)\nlast := 1\n", "3"},
 	"suspErr":  {"x := 1\nfunc f() {\n    raise(\"E\")\n}\nf()\nlast := 1\n", ""},
@@ -156,7 +156,12 @@ func (e *dbgEnv) observe() string {
 		}
 		if d, _ := e.dbg.Describe(e.tid).(map[string]interface{}); d != nil {
 			if running, _ := d["threadRunning"].(bool); !running {
-				time.Sleep(300 * time.Microsecond)
+				// confirmed a little later: a thread which passes an error upwards is shown as not running for a moment
+				time.Sleep(time.Millisecond)
+				d2, _ := e.dbg.Describe(e.tid).(map[string]interface{})
+				if r2, _ := d2["threadRunning"].(bool); d2 == nil || r2 || atomic.LoadInt32(&e.ended) == 1 {
+					continue
+				}
 				if d["error"] != nil {
 					return "suspErr"
 				}
